@@ -111,23 +111,23 @@ class Unit:
         b = self.banks.get(self.dtr1)
         if not self.write_enable or b is None:
             return None
-        # answer faults apply to WRITE MEMORY LOCATION (with reply) only: a
-        # NO-REPLY write has no answer that could be NO / wrong / garbled
+        # unit faults strike data writes (not writes to the lock byte): the
+        # unit refuses the write (NO), stores and echoes another byte, or its
+        # echo is garbled on the bus - whether or not a reply was asked for
         f = None
-        if reply:
+        if not (b.number != 0 and self.dtr0 == 2):
             idx = self.mem_writes
             self.mem_writes += 1
             f = self.answer_faults.get(idx)
         if f == "no":
-            # the unit refuses this write
             self._bump_dtr0()
             return None
+        if f == "other":
+            value = (value ^ 0x5A) & 0xFF
         stored = b.write(self.dtr0, value)
         self._bump_dtr0()
         if not reply or not stored:
             return None
-        if f == "other":
-            return (value ^ 0x5A) & 0xFF if (value ^ 0x5A) & 0xFF != value else (value + 1) & 0xFF
         if f == "garble":
             self.garble_next = True
         return value
@@ -674,7 +674,8 @@ def run_sequence(gen, bus, answer_faults=None, cap=5000, env=None, log=None):
             elif fault == "garble" and out[0] != "silent":
                 told = ("error", out[1])
             elif fault == "garble" and out[0] == "silent":
-                fault = None
+                # noise on the bus where nobody answered: a framing error
+                told = ("error", 0)
             elif fault == "drop":
                 fault = None
             log.add(bus.t_us * 1e-6, "cmd", "seq", (bits, value, told))
